@@ -25,6 +25,7 @@ func init() {
 			{Name: "param-def-at-field-pos", File: "cl/func_type_and_var.go", Old: "\t\tparam := pkg.NewParam(name.Pos(), name.Name, typ)\n\t\targs = append(args, param)", New: "\t\tparam := pkg.NewParam(fld.Type.Pos(), name.Name, typ)\n\t\targs = append(args, param)", Expect: "def-position/toParam:name"},
 			{Name: "use-of-fresh-object", File: "cl/expr.go", Old: "\t\t\trec.Use(name, t.Field(idx))", New: "\t\t\trec.Use(name, types.NewField(name.Pos(), ctx.pkg.Types, name.Name, t.Field(idx).Type(), false))", Expect: "use-elsewhere/compileStructLitInKeyVal:name"},
 			{Name: "pkgname-cached-across-files", File: "cl/compile.go", Old: "\tpkgName := types.NewPkgName(pos, ctx.pkg.Types, name, pkg.Types)\n", New: "\tpkgName, cachedName := pkgNameCache[name]\n\tif !cachedName {\n\t\tpkgName = types.NewPkgName(pos, ctx.pkg.Types, name, pkg.Types)\n\t\tpkgNameCache[name] = pkgName\n\t}\n", Old2: "func loadImport(ctx *blockCtx, spec *ast.ImportSpec) {", New2: "var pkgNameCache = map[string]*types.PkgName{}\n\nfunc loadImport(ctx *blockCtx, spec *ast.ImportSpec) {", Expect: "def-fresh/loadImport:specName"},
+			{Name: "const-defs-in-current-scope", File: "cl/compile.go", Old: "\tcdecl.New(fn, iotav, v.Pos(), typ, names...)\n\tdefNames(ctx, v.Names, scope)", New: "\tcdecl.New(fn, iotav, v.Pos(), typ, names...)\n\tdefNames(ctx, v.Names, nil)", Expect: "def-scope/loadConsts:v.Names"},
 			{Name: "embedded-class-field-at-star", File: "cl/compile.go", Old: "\t\t\t\t\t\t\tfld := types.NewField(name.Pos(), pkg, name.Name, typ, true)", New: "\t\t\t\t\t\t\tfld := types.NewField(spec.Type.Pos(), pkg, name.Name, typ, true)", Expect: "def-position/preloadGopFile:name"},
 		},
 	})
@@ -100,6 +101,81 @@ func runC12(c *core.Check) {
 				c.Ok("def-position", key, call.Pos(), "constructed at "+core.ExprStr(posArg))
 			} else {
 				c.Bad("def-position", key, call.Pos(), "the object recorded as the definition of `"+idStr+"` is constructed at position `"+core.ExprStr(posArg)+"`, not at the identifier's own position: Info.Defs["+idStr+"].Pos() != "+idStr+".Pos(), which breaks the documented invariant of the Defs map (and go-to-definition lands elsewhere)")
+			}
+			return true
+		})
+	}
+	// (3) definitions are looked up in the scope they were declared in: defNames(ctx, names, scope) falls back to the
+	// builder's *current* scope when scope is nil — for a package-level declaration that is loaded lazily while a function
+	// body is being compiled, that is the function's scope (a local of the same name is recorded, or nothing)
+	for _, fd := range core.AllFuncDecls(pk) {
+		if fd.Body == nil {
+			continue
+		}
+		ast.Inspect(fd.Body, func(n ast.Node) bool {
+			call, ok := n.(*ast.CallExpr)
+			if !ok || len(call.Args) != 3 {
+				return true
+			}
+			if fn, ok := calleeObj(info, call).(*types.Func); !ok || fn.Name() != "defNames" {
+				return true
+			}
+			key := core.FuncName(fd) + ":" + core.ExprStr(call.Args[1])
+			id, isNil := ast.Unparen(call.Args[2]).(*ast.Ident)
+			c.Decide(!(isNil && id.Name == "nil"), "def-scope", key, call.Pos(), "the declaring scope is passed explicitly", "cl."+core.FuncName(fd)+" records the definitions of "+core.ExprStr(call.Args[1])+" by looking the names up in whatever scope the code builder is in at that moment (nil scope): when the declaration is loaded on first use from inside a function body, Defs gets a local variable of the same name — or nothing — instead of the declared object")
+			return true
+		})
+	}
+	c.Floor("def-scope", 6)
+	// (4) objects created by gogen for several names at once: gogen's declaring calls take ONE position (or none) for a
+	// whole name list, so in `a, b := …` / `var a, b T` / `const a, b = …` every object sits at the first name's position,
+	// and range / type-switch variables are declared without a position
+	for _, fd := range core.AllFuncDecls(pk) {
+		if fd.Body == nil {
+			continue
+		}
+		hasDef := false
+		ast.Inspect(fd.Body, func(n ast.Node) bool {
+			if call, ok := n.(*ast.CallExpr); ok {
+				if fn, ok := calleeObj(info, call).(*types.Func); ok && fn.Name() == "defNames" {
+					hasDef = true
+				}
+			}
+			return true
+		})
+		if !hasDef {
+			continue
+		}
+		seenKey := map[string]bool{}
+		ast.Inspect(fd.Body, func(n ast.Node) bool {
+			call, ok := n.(*ast.CallExpr)
+			if !ok || !call.Ellipsis.IsValid() || len(call.Args) == 0 {
+				return true
+			}
+			fn, ok := calleeObj(info, call).(*types.Func)
+			if !ok || fn.Pkg() == nil || fn.Pkg().Path() != "github.com/goplus/gogen" {
+				return true
+			}
+			sig := fn.Type().(*types.Signature)
+			last := sig.Params().At(sig.Params().Len() - 1)
+			if sl, ok := last.Type().(*types.Slice); !ok || !types.Identical(sl.Elem(), types.Typ[types.String]) {
+				return true
+			}
+			hasPos := false
+			for i := 0; i < sig.Params().Len(); i++ {
+				if strings.HasSuffix(sig.Params().At(i).Type().String(), "token.Pos") {
+					hasPos = true
+				}
+			}
+			key := core.FuncName(fd) + ":" + fn.Name()
+			if seenKey[key] {
+				return true
+			}
+			seenKey[key] = true
+			if hasPos {
+				c.Bad("def-multi-name", key, call.Pos(), "gogen."+fn.Name()+" declares a whole list of names at one position: for `a, b := …` (or `var a, b T`, `const a, b = …`) the objects recorded for b, c, … sit at a's position, so Defs[b].Pos() != b.Pos()")
+			} else {
+				c.Bad("def-no-position", key, call.Pos(), "gogen."+fn.Name()+" declares the names without any position: the objects recorded for these identifiers have Pos() == NoPos")
 			}
 			return true
 		})
